@@ -10,6 +10,7 @@ import SkModel.Proofs.ParInv
 import SkModel.Proofs.ParInvLocal
 import SkModel.Proofs.ParInvSync
 import SkModel.Proofs.ParInvLive
+import SkModel.Proofs.ParInvProgress
 
 namespace Sk
 open StoreInv Par
@@ -37,22 +38,41 @@ structure Inv (B : Nat) (progs : Nat → List (Ns × Option Val)) (s : PState) :
   i2 : Inv2 B s
   i3 : Inv3 s
   i4 : Inv4 progs s
+  i5 : Inv5 s
 
 theorem inv_init {B : Nat} (hB : 0 < B) (progs : Nat → List (Ns × Option Val)) :
     Inv B progs (PState.init B progs) :=
-  ⟨Inv1.init B progs, Inv2.init hB progs, Inv3.init B progs, Inv4.init B progs⟩
+  ⟨Inv1.init B progs, Inv2.init hB progs, Inv3.init B progs, Inv4.init B progs, Inv5.init B progs⟩
 
 theorem inv_step {B : Nat} {progs : Nat → List (Ns × Option Val)} {s : PState} {l : PLbl}
     {s' : PState} (hB : 0 < B) (h : Inv B progs s) (hs : pstep s l = some s') : Inv B progs s' := by
   have hs' := step_of_pstep hs
   exact ⟨inv1_step h.i1 hs', inv2_step hB h.i1 h.i2 hs', inv3_step hB h.i1 h.i2 h.i3 hs',
-    inv4_step hB h.i1 h.i2 h.i4 hs'⟩
+    inv4_step hB h.i1 h.i2 h.i4 hs', inv5_step h.i2 h.i5 hs'⟩
 
 theorem reach_inv {B : Nat} {progs : Nat → List (Ns × Option Val)} {s : PState} (hB : 0 < B)
     (h : PReach B progs s) : Inv B progs s := by
   obtain ⟨ls, hr⟩ := h
   exact prun_induct (P := Inv B progs) (fun _ _ _ hi hs => inv_step hB hi hs) ls _ _
     (inv_init hB progs) hr
+
+theorem prodSteps_le {B : Nat} {progs : Nat → List (Ns × Option Val)} (hB : 0 < B) (W : List Nat) :
+    ∀ (ls : List PLbl) (s s' : PState), Inv B progs s → prun s ls = some s' →
+      prodSteps W s ls + total W s' ≤ total W s
+  | [], s, s', _, hr => by
+    simp only [prun, Option.some.injEq] at hr; subst hr; simp [prodSteps]
+  | l :: ls, s, s', h, hr => by
+    simp only [prun] at hr
+    split at hr
+    · rename_i s1 hs1
+      have ih := prodSteps_le hB W ls s1 s' (inv_step hB h hs1) hr
+      obtain ⟨hle, hlt⟩ := total_step hB h.i1 h.i2 h.i5 (step_of_pstep hs1) W
+      simp only [prodSteps, hs1]
+      split
+      · rename_i hc
+        have := hlt hc.1 hc.2; omega
+      · omega
+    · cases hr
 
 theorem reach_inv12 {B : Nat} {progs : Nat → List (Ns × Option Val)} {s : PState} (hB : 0 < B)
     (h : PReach B progs s) : Inv1 B s ∧ Inv2 B s :=
@@ -271,6 +291,46 @@ theorem C06_no_alloc_error (hB : 0 < B) (h : PReach B progs s) (w : Nat)
   obtain ⟨st', r, e, -⟩ := local_spec hB inv.i1 inv.i2 w hops hready
   exact ⟨st', r, e⟩
 
+/-- The progress measure of a finite set `W` of workers (the model has infinitely many workers,
+    all of which have to `sync`, so a global measure would be infinite).  Per worker: remaining
+    micro-ops, phase of the `preallocate` protocol, items not yet synced, lock still held. -/
+def C06_measure (W : List Nat) (s : PState) : Nat := Par.total W s
+
+/-- No step increases the measure; every *productive* step (`Par.productive`: any step except
+    `syncRevRead`, `syncRevWrite`, and a `syncData` of an item that is already synced) of a worker
+    in `W` strictly decreases it.  NB the excepted steps can be repeated for ever in the model:
+    `sync`'s writes are not guarded by "not yet written". -/
+theorem C06_progress_measure (hB : 0 < B) (h : PReach B progs s) (W : List Nat) {l : PLbl}
+    {s' : PState} (hs : pstep s l = some s') :
+    C06_measure W s' ≤ C06_measure W s ∧
+    (productive s l → actor l ∈ W → C06_measure W s' < C06_measure W s) := by
+  have inv := reach_inv hB h
+  exact total_step hB inv.i1 inv.i2 inv.i5 (step_of_pstep hs) W
+
+theorem C06_measure_zero (W : List Nat) (s : PState) :
+    C06_measure W s = 0 ↔ ∀ w, w ∈ W → (s.ws w).pc = .done := total_eq_zero W s
+
+/-- along any continuation of a reachable state, the workers in `W` make at most
+    `C06_measure W s` productive steps: every schedule terminates up to the repeatable steps -/
+theorem C06_bounded_work (hB : 0 < B) (h : PReach B progs s) (W : List Nat) {ls : List PLbl}
+    {s' : PState} (hr : prun s ls = some s') :
+    prodSteps W s ls + C06_measure W s' ≤ C06_measure W s :=
+  prodSteps_le hB W ls s s' (reach_inv hB h) hr
+
+/-- a worker in `sync` or `done` has executed its whole program -/
+theorem C06_finished (hB : 0 < B) (h : PReach B progs s) (w : Nat)
+    (hd : (s.ws w).pc = .sync ∨ (s.ws w).pc = .done) :
+    (s.ws w).ops = [] ∧ (s.ws w).rets.length = (progs w).length := by
+  have inv := reach_inv hB h
+  have ho := inv.i5.fin w hd
+  refine ⟨ho, ?_⟩
+  have h1 := inv.i4.ops_eq w
+  have h2 := inv.i4.len w
+  rw [ho] at h1
+  have := congrArg List.length h1
+  simp only [List.length_nil, List.length_drop] at this
+  omega
+
 /-! ### 6. non-vacuity: B = 2, two workers alternating at every possible step
 
   Worker 0 stores a0 (tag t0) and b0; worker 1 stores a1 (tag t1) and a1 again (sequence id q1).
@@ -339,6 +399,12 @@ example : ∃ s, PReach 2 C06_demo_progs s ∧ (s.ws 0).pc = .done ∧ (s.ws 1).
   simp only [Option.map_some, Option.some.injEq, Prod.mk.injEq] at ho
   exact ⟨s, ⟨_, hs⟩, ho.1, ho.2.1, ho.2.2.1, ho.2.2.2⟩
 
+/-- the measure of the two workers goes from 112 to 0 along the demo run, in 43 productive steps
+    (the other 12 steps are the reverse-map accesses) -/
+example : C06_measure [0, 1] (PState.init 2 C06_demo_progs) = 112 ∧
+    (prun (PState.init 2 C06_demo_progs) C06_demo_labels).map (C06_measure [0, 1]) = some 0 ∧
+    prodSteps [0, 1] (PState.init 2 C06_demo_progs) C06_demo_labels = 43 := by decide
+
 end Sk
 
 #print axioms Sk.C06_disjoint
@@ -357,3 +423,7 @@ end Sk
 #print axioms Sk.C06_nodeadlock
 #print axioms Sk.C06_nodeadlock_productive
 #print axioms Sk.C06_no_alloc_error
+#print axioms Sk.C06_progress_measure
+#print axioms Sk.C06_measure_zero
+#print axioms Sk.C06_bounded_work
+#print axioms Sk.C06_finished
